@@ -226,8 +226,8 @@ theorem address_drop (b : List Instr) (i : Nat) (a : Nat) (hi : i < b.length)
   have hb : b = b.take i ++ b[i] :: b.drop (i + 1) := by
     rw [← hd, List.take_append_drop]
   have := consecutive_addr' (b.take i) b[i] (b.drop (i + 1)) a (hb ▸ h) (hb ▸ ha)
-  rw [hd]
-  simp [address?, this]
+  have h2 : address? (b.drop i) = some b[i].addr := by rw [hd]; rfl
+  rw [h2, this]
 
 theorem address_take (b : List Instr) (j : Nat) (hj : 0 < j) : address? (b.take j) = address? b := by
   cases b with
@@ -272,16 +272,16 @@ theorem getitem_spec (b b' : Block) (sta sto : Option Int) (h : getitem b sta st
 theorem cut_spec_none (b : Block) (addr : Nat) (h : (cut b addr).2 = 0) :
     (cut b addr).1 = b ∧ ∀ x ∈ b, x.addr ≠ addr := by
   unfold cut at h ⊢
-  split at h
+  split
   · rename_i hn
     rw [List.idxOf?_eq_none_iff] at hn
-    simp only [hn]
     refine ⟨rfl, ?_⟩
     intro x hx hxa
     apply hn
     simp
     exact ⟨x, hx, hxa⟩
   · rename_i pos hp
+    rw [hp] at h
     rw [List.idxOf?_eq_some_iff] at hp
     obtain ⟨hlt, _, _⟩ := hp
     simp at hlt h
@@ -304,8 +304,8 @@ theorem cut_spec_some (b : Block) (addr : Nat) (h : (cut b addr).2 ≠ 0) :
     · intro y hy
       simp only at hy
       obtain ⟨k, hk, rfl⟩ := List.getElem_of_mem hy
-      simp at hk
-      have := hmin k hk.1
+      have hk' : k < pos := by simp at hk; omega
+      have := hmin k hk'
       simpa using this
     · simp only
       congr
